@@ -1,8 +1,12 @@
 //go:build verif
 
 // C35 — "The data recorder persists every entry exactly once".
-// Sequential contracts of InsertData / Flush / insertEntryForTable / getLocationID / flushLocationTable over a ghost log of
+// Contracts of InsertData / Flush / flushLocked / insertEntryForTable / getLocationID / flushLocationTable over a ghost log of
 // prepared-statement executions, plus the lock discipline of sqliteWriter.mu (sequentialised rely/guarantee).
+// History: before /repo commit c71cfbe3 Flush read and cleared the batches WITHOUT the lock (entries inserted while a flush
+// was running were lost: 20000 inserts -> 1535..3624 rows, see /verif/replay/datarecording_c35_race_test.go.tmpl); its
+// postconditions could then only be stated under a never-discharged witness `atomic`. Since the fix Flush holds the lock
+// for its whole body and the postconditions hold unconditionally from the state at Lock() to the state at Unlock().
 // SQLite and reflection are out of reach: database/sql and reflect calls carry TRUSTED ext contracts (see below).
 package datarecording
 
@@ -15,9 +19,6 @@ package datarecording
 //@ ghost var c35Val map2
 //@ ghost var c35CurTyp int
 //@ ghost var c35CurVal int
-// c35Q: scratch flag of Flush's loops (declared globally only so that it is defined on every path): "so far no call of
-// insertEntryForTable found the guarded data changed by another holder of the lock"
-//@ ghost var c35Q bool
 
 // TRUSTED (standard library): executing a prepared statement appends one row to the statement's log; the error is arbitrary.
 //@ ext database/sql.(*Stmt).ExecContext(s, ctx, args)
@@ -65,6 +66,16 @@ package datarecording
 //@   pure
 // strings.Contains: trusted pure contract declared in daisen2/internal/httpapi (C38 file).
 
+// local copy of the trusted contract used by C03 (ext declared in the caller's package take precedence over global ones)
+//@ ext sort.Strings(x)
+//@   trusted
+//@   witness pi map = idperm
+//@   witness inv map = idperm
+//@   ensures forall k in 0..len(x) - 1 :: !strlt(x[k+1], x[k])
+//@   ensures forall k in 0..len(x) :: 0 <= pi[k] && pi[k] < len(x) && x[k] == old(x)[pi[k]] && inv[pi[k]] == k
+//@   ensures forall j in 0..len(x) :: 0 <= inv[j] && inv[j] < len(x) && pi[inv[j]] == j
+//@   assigns elems(x)
+
 // ---------------------------------------------------------------------------------------------------------------------
 // Representation.
 //@ func c35Tab(t, k) = t.tables[k]
@@ -72,7 +83,7 @@ package datarecording
 
 // immutable shape (set up by CreateTable, which is outside the contract's reach: reflection + SQL DDL)
 //@ pred c35Shape(t) = t != nil && t.DB != nil && t.tables != nil && t.locationInfo != nil
-//@   && "location" in t.tables
+//@   && "location" in t.tables && 0 <= len(t.tables) && len(t.tables) < 4611686018427387904     // true of every Go map (needed for make's capacity)
 //@   && (forall k int :: k in t.tables ==> t.tables[k] != nil && t.tables[k] <= allocTop && t.tables[k].statement != nil)
 //@   && (forall k1 int, k2 int :: k1 in t.tables && k2 in t.tables && k1 != k2 ==> t.tables[k1] != t.tables[k2] && t.tables[k1].statement != t.tables[k2].statement)
 
@@ -87,12 +98,11 @@ package datarecording
 
 // Lock invariant of sqliteWriter.mu. Guarded: every table's batch, entryCount, the location map.
 // Stability relation (what every holder does, hence what every other goroutine may rely on across an acquisition):
-// batches only grow at the end, interned locations are never re-numbered.
+// interned locations are never re-numbered. (Batches grow under InsertData and are emptied under Flush: nothing about
+// their contents survives an acquisition, and nothing below relies on it.)
 //@ lockinv sqliteWriter.mu(t)
 //@   assigns key("O|datarecording.table|.entries"), t.entryCount, elems(t.locationInfo)
 //@   requires c35Disj(t) && c35LocBij(t)
-//@   ensures forall k int :: k in t.tables ==> len(t.tables[k].entries) >= old(len(t.tables[k].entries))
-//@   ensures forall k int :: k in t.tables ==> (forall j in 0..old(len(t.tables[k].entries)) :: t.tables[k].entries[j] == old(t.tables[k].entries[j]))
 //@   ensures forall s int :: old(s in t.locationInfo) ==> s in t.locationInfo && t.locationInfo[s] == old(t.locationInfo[s])
 
 // ---------------------------------------------------------------------------------------------------------------------
@@ -135,51 +145,168 @@ package datarecording
 //@   assigns elems(t.locationInfo), t.tables["location"].entries, elems(t.tables["location"].entries), t.entryCount
 
 // ---------------------------------------------------------------------------------------------------------------------
-// One row for one entry. Runs under the lock: what it can promise about the batches RELATIVE TO ITS ENTRY STATE is only what
-// the lock's stability relation gives (batches may have grown while it waited for the lock) — unless nobody interfered:
-// the witness `quiet` says the guarded data found at acquisition was the data seen at entry.
-//@ pred c35HdrSame(t) = forall k int :: k in t.tables ==> atlock(len(t.tables[k].entries)) == old(len(t.tables[k].entries)) && atlock(ref(t.tables[k].entries)) == old(ref(t.tables[k].entries)) && atlock(off(t.tables[k].entries)) == old(off(t.tables[k].entries))
+// One row for one entry (the caller holds the lock): exactly one execution of the table's statement, for this entry; the only
+// batch that may change is the location table's (new locations appended at the end).
+//@ func c35LocStmt(t) = t.tables["location"].statement
+//@ func c35St(t, k) = t.tables[k].statement
+//@ pred c35HdrOld(t, k) = len(t.tables[k].entries) == old(len(t.tables[k].entries)) && ref(t.tables[k].entries) == old(ref(t.tables[k].entries)) && off(t.tables[k].entries) == old(off(t.tables[k].entries))
+//@ pred c35PrefixOld(t, k) = forall j in 0..old(len(t.tables[k].entries)) :: t.tables[k].entries[j] == old(t.tables[k].entries[j])
+//@ pred c35RowsOld(t, k, n) = forall j in 0..n :: c35Typ[c35St(t, k)][old(c35Cnt)[c35St(t, k)] + j] == typeid(old(t.tables[k].entries[j])) && c35Val[c35St(t, k)][old(c35Cnt)[c35St(t, k)] + j] == ifaceval(old(t.tables[k].entries[j]))
+//@ pred c35Below(t, k, i) = i < old(len(t.tables[k].entries))
 //@ fn (*sqliteWriter).insertEntryForTable
 //@   property C35
 //@   requires c35Shape(t) && c35Disj(t) && c35LocBij(t)
-//@   requires exists k int :: k in t.tables && t.tables[k] == table
+//@   requires table != nil && table.statement != nil
 //@   panics any
-//@   witness quiet bool = c35HdrSame(t)
 //@   label C35.row.count
 //@   ensures c35Cnt == upd(old(c35Cnt), table.statement, old(c35Cnt)[table.statement] + 1)
 //@   label C35.row.entry
 //@   ensures c35Typ == upd(old(c35Typ), table.statement, upd(old(c35Typ)[table.statement], old(c35Cnt)[table.statement], typeid(task)))
 //@     && c35Val == upd(old(c35Val), table.statement, upd(old(c35Val)[table.statement], old(c35Cnt)[table.statement], ifaceval(task)))
-//@   label C35.row.grow
-//@   ensures forall k int :: k in t.tables ==> len(t.tables[k].entries) >= old(len(t.tables[k].entries))
+//@   label C35.row.batches
+//@   ensures forall k int :: k in t.tables && k != "location" ==> c35HdrOld(t, k)
+//@   label C35.row.locbatch
+//@   ensures len(t.tables["location"].entries) >= old(len(t.tables["location"].entries))
 //@   label C35.row.prefix
 //@   ensures forall k int :: k in t.tables ==> (forall j in 0..old(len(t.tables[k].entries)) :: t.tables[k].entries[j] == old(t.tables[k].entries[j]))
 //@   label C35.row.locs
 //@   ensures forall s int :: old(s in t.locationInfo) ==> s in t.locationInfo && t.locationInfo[s] == old(t.locationInfo[s])
-//@   label C35.row.quiet
-//@   ensures quiet ==> (forall k int :: k in t.tables && k != "location" ==> len(t.tables[k].entries) == old(len(t.tables[k].entries)) && ref(t.tables[k].entries) == old(ref(t.tables[k].entries)) && off(t.tables[k].entries) == old(off(t.tables[k].entries)))
 //@   label C35.row.inv
 //@   ensures c35Disj(t) && c35LocBij(t)
-//@   assigns key("O|datarecording.table|.entries"), table.entries, key("E|any|"), t.entryCount, elems(t.locationInfo), c35Cnt, c35Typ, c35Val, c35CurTyp, c35CurVal
+//@   assigns t.tables["location"].entries, elems(t.tables["location"].entries), t.entryCount, elems(t.locationInfo), c35Cnt, c35Typ, c35Val, c35CurTyp, c35CurVal
 //@   loop 0: invariant 0 <= i && (fresh(v) || cap(v) == 0) && c35Disj(t) && c35LocBij(t)
 //@   loop 0: invariant cap(v) > 0 ==> (forall k int :: k in t.tables ==> ref(t.tables[k].entries) != ref(v))
 //@   loop 0: invariant c35Cnt == old(c35Cnt) && c35Typ == old(c35Typ) && c35Val == old(c35Val) && c35CurTyp == typeid(task) && c35CurVal == ifaceval(task)
-//@   loop 0: invariant forall k int :: k in t.tables ==> len(t.tables[k].entries) >= atlock(len(t.tables[k].entries))
-//@   loop 0: invariant forall j in 0..atlock(len(t.tables["location"].entries)) :: t.tables["location"].entries[j] == atlock(t.tables["location"].entries[j])
+//@   loop 0: invariant len(t.tables["location"].entries) >= old(len(t.tables["location"].entries))
+//@   loop 0: invariant ref(t.tables["location"].entries) == old(ref(t.tables["location"].entries)) || fresh(t.tables["location"].entries)
+//@   loop 0: invariant forall j in 0..old(len(t.tables["location"].entries)) :: t.tables["location"].entries[j] == old(t.tables["location"].entries[j])
 //@   loop 0: invariant forall k int :: k in t.tables && k != "location" && cap(t.tables[k].entries) > 0 ==> ref(t.tables[k].entries) != ref(t.tables["location"].entries)
-//@   loop 0: invariant forall k int :: k in t.tables && k != "location" ==> (forall j in 0..atlock(len(t.tables[k].entries)) :: t.tables[k].entries[j] == atlock(t.tables[k].entries[j]))
-//@   loop 0: invariant forall k int :: k in t.tables && k != "location" ==> len(t.tables[k].entries) == atlock(len(t.tables[k].entries)) && ref(t.tables[k].entries) == atlock(ref(t.tables[k].entries)) && off(t.tables[k].entries) == atlock(off(t.tables[k].entries))
-//@   loop 0: invariant forall s int :: atlock(s in t.locationInfo) ==> s in t.locationInfo && t.locationInfo[s] == atlock(t.locationInfo[s])
+//@   loop 0: invariant forall k int :: k in t.tables && k != "location" ==> (forall j in 0..old(len(t.tables[k].entries)) :: t.tables[k].entries[j] == old(t.tables[k].entries[j]))
+//@   loop 0: invariant forall k int :: k in t.tables && k != "location" ==> c35HdrOld(t, k)
+//@   loop 0: invariant forall s int :: old(s in t.locationInfo) ==> s in t.locationInfo && t.locationInfo[s] == old(t.locationInfo[s])
 
 // ---------------------------------------------------------------------------------------------------------------------
-// InsertData: exactly one entry is appended to the named table's batch (state at lock acquisition -> state at release); when the
-// batch limit is reached the whole batch, ending with this entry, goes to the table's prepared statement and the batch is emptied.
-// Arithmetic assumption stated in the clauses: entryCount has not reached MaxInt64 / is not negative (it counts batched entries).
-//@ fn (*sqliteWriter).InsertData
+// flushLocationTable (caller holds the lock): every batched location row is executed exactly once, in order; batch emptied.
+//@ fn (*sqliteWriter).flushLocationTable
+//@   property C35
+//@   requires c35Shape(t) && c35Disj(t)
+//@   panics any
+//@   label C35.flushloc.count
+//@   ensures c35Cnt == upd(old(c35Cnt), c35LocStmt(t), old(c35Cnt)[c35LocStmt(t)] + old(len(t.tables["location"].entries)))
+//@   label C35.flushloc.rows
+//@   ensures forall j in 0..old(len(t.tables["location"].entries)) :: c35Typ[c35LocStmt(t)][old(c35Cnt)[c35LocStmt(t)] + j] == typeid(old(t.tables["location"].entries[j])) && c35Val[c35LocStmt(t)][old(c35Cnt)[c35LocStmt(t)] + j] == ifaceval(old(t.tables["location"].entries[j]))
+//@   label C35.flushloc.oldrows
+//@   ensures forall s int, n int :: (s != c35LocStmt(t) || n < old(c35Cnt)[s]) ==> c35Typ[s][n] == old(c35Typ)[s][n] && c35Val[s][n] == old(c35Val)[s][n]
+//@   label C35.flushloc.empty
+//@   ensures len(t.tables["location"].entries) == 0 && c35Disj(t)
+//@   assigns t.tables["location"].entries, c35Cnt, c35Typ, c35Val, c35CurTyp, c35CurVal
+//@   loop 0: invariant -1 <= rangeindex && rangeindex < old(len(t.tables["location"].entries)) && table == t.tables["location"]
+//@   loop 0: invariant c35HdrOld(t, "location")
+//@   loop 0: invariant c35Cnt == upd(old(c35Cnt), c35LocStmt(t), old(c35Cnt)[c35LocStmt(t)] + rangeindex + 1)
+//@   loop 0: invariant forall j in 0..rangeindex + 1 :: c35Typ[c35LocStmt(t)][old(c35Cnt)[c35LocStmt(t)] + j] == typeid(old(t.tables["location"].entries[j])) && c35Val[c35LocStmt(t)][old(c35Cnt)[c35LocStmt(t)] + j] == ifaceval(old(t.tables["location"].entries[j]))
+//@   loop 0: invariant forall s int, n int :: (s != c35LocStmt(t) || n < old(c35Cnt)[s]) ==> c35Typ[s][n] == old(c35Typ)[s][n] && c35Val[s][n] == old(c35Val)[s][n]
+//@   loop 1: invariant 0 <= i && (fresh(v) || cap(v) == 0)
+
+//@ fn (*sqliteWriter).mustExecute
+//@   property C35
+//@   requires t != nil && t.DB != nil
+//@   panics any
+//@   assigns nothing
+
+// ---------------------------------------------------------------------------------------------------------------------
+// flushLocked (caller holds the lock; plain sequential contract): every batched entry of every table goes to that table's
+// prepared statement exactly once, in batch order; every batch is emptied; entryCount is reset.
+// The tables are visited in the order of the sorted name slice: c35Pos(k) = position of name k in that slice
+// (where[k] = index at which loop 0 appended k, Strings_inv = inverse of sort.Strings' permutation).
+//@ func c35Pos(k) = Strings_inv[where[k]]
+//@ pred c35Names(t, names) = (forall i in 0..len(names) :: (names[i] in t.tables) && c35Pos(names[i]) == i)
+//@   && (forall n int :: (n in t.tables) ==> 0 <= c35Pos(n) && c35Pos(n) < len(names) && names[c35Pos(n)] == n)
+//@ fn (*sqliteWriter).flushLocked
 //@   property C35
 //@   requires c35Shape(t) && c35Disj(t) && c35LocBij(t)
 //@   panics any
-//@   witness atomic bool = Flush_atomic
+//@   label C35.flush.idle
+//@   ensures old(t.entryCount) == 0 ==> c35Cnt == old(c35Cnt) && c35Typ == old(c35Typ) && c35Val == old(c35Val) && (forall k int :: k in t.tables ==> c35HdrOld(t, k)) && t.entryCount == 0
+//@   label C35.flush.count
+//@   ensures old(t.entryCount) != 0 ==> (forall k int :: k in t.tables && k != "location" ==> c35Cnt[c35St(t, k)] == old(c35Cnt)[c35St(t, k)] + old(len(t.tables[k].entries)))
+//@   label C35.flush.order
+//@   ensures old(t.entryCount) != 0 ==> (forall k int :: k in t.tables && k != "location" ==> (forall j in 0..old(len(t.tables[k].entries)) :: c35Typ[c35St(t, k)][old(c35Cnt)[c35St(t, k)] + j] == typeid(old(t.tables[k].entries[j])) && c35Val[c35St(t, k)][old(c35Cnt)[c35St(t, k)] + j] == ifaceval(old(t.tables[k].entries[j]))))
+//@   label C35.flush.empty
+//@   ensures old(t.entryCount) != 0 ==> (forall k int :: k in t.tables ==> len(t.tables[k].entries) == 0)
+//@   label C35.flush.location
+//@   ensures old(t.entryCount) != 0 ==> c35Cnt[c35LocStmt(t)] >= old(c35Cnt)[c35LocStmt(t)] + old(len(t.tables["location"].entries))
+//@   label C35.flush.oldrows
+//@   ensures forall s int, n int :: n < old(c35Cnt)[s] ==> c35Typ[s][n] == old(c35Typ)[s][n] && c35Val[s][n] == old(c35Val)[s][n]
+//@   label C35.flush.reset
+//@   ensures t.entryCount == 0
+//@   label C35.flush.locs
+//@   ensures forall s int :: old(s in t.locationInfo) ==> s in t.locationInfo && t.locationInfo[s] == old(t.locationInfo[s])
+//@   label C35.flush.inv
+//@   ensures c35Disj(t) && c35LocBij(t)
+//@   assigns key("O|datarecording.table|.entries"), t.tables["location"].entries, key("E|any|"), t.entryCount, elems(t.locationInfo), c35Cnt, c35Typ, c35Val, c35CurTyp, c35CurVal
+//  ---- loop 0: collect the table names
+//@   loop 0: ghost where = idperm
+//@   loop 0: backedge where = upd(where, tableName, athead(len(tableNames)))
+//@   loop 0: invariant fresh(tableNames) && off(tableNames) == 0
+//@   loop 0: invariant forall i in 0..len(tableNames) :: (tableNames[i] in t.tables) && visited(tableNames[i]) && where[tableNames[i]] == i
+//@   loop 0: invariant forall n int :: visited(n) ==> 0 <= where[n] && where[n] < len(tableNames) && tableNames[where[n]] == n
+//  ---- loop 1: the tables in name order; table k is done iff c35Pos(k) <= rangeindex
+//@   loop 1: invariant -1 <= rangeindex && rangeindex < len(tableNames) && fresh(tableNames) && c35Names(t, tableNames)
+//@   loop 1: invariant old(t.entryCount) != 0 && c35Disj(t) && c35LocBij(t)
+//@   loop 1: invariant forall k int :: k in t.tables && k != "location" ==> c35Cnt[c35St(t, k)] == old(c35Cnt)[c35St(t, k)] + (c35Pos(k) <= rangeindex ? old(len(t.tables[k].entries)) : 0)
+//@   loop 1: invariant forall k int :: k in t.tables && k != "location" ==> (c35Pos(k) <= rangeindex ? len(t.tables[k].entries) == 0 : c35HdrOld(t, k))
+//@   loop 1: invariant forall k int :: k in t.tables && k != "location" && c35Pos(k) > rangeindex ==> (forall j in 0..old(len(t.tables[k].entries)) :: t.tables[k].entries[j] == old(t.tables[k].entries[j]))
+//@   loop 1: invariant forall k int :: k in t.tables && k != "location" && c35Pos(k) <= rangeindex ==> (forall j in 0..old(len(t.tables[k].entries)) :: c35Typ[c35St(t, k)][old(c35Cnt)[c35St(t, k)] + j] == typeid(old(t.tables[k].entries[j])) && c35Val[c35St(t, k)][old(c35Cnt)[c35St(t, k)] + j] == ifaceval(old(t.tables[k].entries[j])))
+//@   loop 1: invariant forall s int, n int :: n < old(c35Cnt)[s] ==> c35Typ[s][n] == old(c35Typ)[s][n] && c35Val[s][n] == old(c35Val)[s][n]
+//@   loop 1: invariant forall s int :: c35Cnt[s] >= old(c35Cnt)[s]
+//@   loop 1: invariant len(t.tables["location"].entries) >= old(len(t.tables["location"].entries)) && c35Cnt[c35LocStmt(t)] == old(c35Cnt)[c35LocStmt(t)]
+//@   loop 1: invariant forall s int :: old(s in t.locationInfo) ==> s in t.locationInfo && t.locationInfo[s] == old(t.locationInfo[s])
+//  ---- loop 2: the batch of the current table (tableName; the tables before it in name order are done)
+//@   loop 2: invariant fresh(tableNames) && c35Names(t, tableNames)
+//@   loop 2: invariant old(t.entryCount) != 0 && c35Disj(t) && c35LocBij(t)
+//@   loop 2: invariant tableName in t.tables && tableName != "location" && table == t.tables[tableName]
+//@   loop 2: invariant -1 <= rangeindex && c35Below(t, tableName, rangeindex)
+//@   loop 2: invariant c35Cnt[table.statement] == old(c35Cnt)[table.statement] + rangeindex + 1
+//@   loop 2: invariant c35HdrOld(t, tableName) && c35PrefixOld(t, tableName)
+//@   loop 2: invariant table.statement == c35St(t, tableName) && c35RowsOld(t, tableName, rangeindex + 1)
+//@   loop 2: invariant forall k int :: k in t.tables && k != "location" && k != tableName ==> c35Cnt[c35St(t, k)] == old(c35Cnt)[c35St(t, k)] + (c35Pos(k) < c35Pos(tableName) ? old(len(t.tables[k].entries)) : 0)
+//@   loop 2: invariant forall k int :: k in t.tables && k != "location" && k != tableName ==> (c35Pos(k) < c35Pos(tableName) ? len(t.tables[k].entries) == 0 : c35HdrOld(t, k))
+//@   loop 2: invariant forall k int :: k in t.tables && k != "location" && c35Pos(k) > c35Pos(tableName) ==> (forall j in 0..old(len(t.tables[k].entries)) :: t.tables[k].entries[j] == old(t.tables[k].entries[j]))
+//@   loop 2: invariant forall k int :: k in t.tables && k != "location" && c35Pos(k) < c35Pos(tableName) ==> (forall j in 0..old(len(t.tables[k].entries)) :: c35Typ[c35St(t, k)][old(c35Cnt)[c35St(t, k)] + j] == typeid(old(t.tables[k].entries[j])) && c35Val[c35St(t, k)][old(c35Cnt)[c35St(t, k)] + j] == ifaceval(old(t.tables[k].entries[j])))
+//@   loop 2: invariant forall s int, n int :: n < old(c35Cnt)[s] ==> c35Typ[s][n] == old(c35Typ)[s][n] && c35Val[s][n] == old(c35Val)[s][n]
+//@   loop 2: invariant forall s int :: c35Cnt[s] >= old(c35Cnt)[s]
+//@   loop 2: invariant len(t.tables["location"].entries) >= old(len(t.tables["location"].entries)) && c35Cnt[c35LocStmt(t)] == old(c35Cnt)[c35LocStmt(t)]
+//@   loop 2: invariant forall s int :: old(s in t.locationInfo) ==> s in t.locationInfo && t.locationInfo[s] == old(t.locationInfo[s])
+
+// ---------------------------------------------------------------------------------------------------------------------
+// Flush: the whole flush happens under the lock. From the state at Lock() to the state at Unlock(): every batched entry is
+// executed exactly once in batch order on its table's statement, every batch is empty, entryCount is 0.
+//@ fn (*sqliteWriter).Flush
+//@   property C35
+//@   requires c35Shape(t)
+//@   panics any
+//@   label C35.Flush.count
+//@   ensures atlock(t.entryCount) != 0 ==> (forall k int :: k in t.tables && k != "location" ==> c35Cnt[c35St(t, k)] == old(c35Cnt)[c35St(t, k)] + atlock(len(t.tables[k].entries)))
+//@   label C35.Flush.order
+//@   ensures atlock(t.entryCount) != 0 ==> (forall k int :: k in t.tables && k != "location" ==> (forall j in 0..atlock(len(t.tables[k].entries)) :: c35Typ[c35St(t, k)][old(c35Cnt)[c35St(t, k)] + j] == typeid(atlock(t.tables[k].entries[j])) && c35Val[c35St(t, k)][old(c35Cnt)[c35St(t, k)] + j] == ifaceval(atlock(t.tables[k].entries[j]))))
+//@   label C35.Flush.empty
+//@   ensures atlock(t.entryCount) != 0 ==> (forall k int :: k in t.tables ==> len(t.tables[k].entries) == 0)
+//@   label C35.Flush.idle
+//@   ensures atlock(t.entryCount) == 0 ==> c35Cnt == old(c35Cnt) && c35Typ == old(c35Typ) && c35Val == old(c35Val)
+//@   label C35.Flush.oldrows
+//@   ensures forall s int, n int :: n < old(c35Cnt)[s] ==> c35Typ[s][n] == old(c35Typ)[s][n] && c35Val[s][n] == old(c35Val)[s][n]
+//@   label C35.Flush.reset
+//@   ensures t.entryCount == 0 && c35Disj(t) && c35LocBij(t)
+//@   assigns key("O|datarecording.table|.entries"), key("E|any|"), t.entryCount, elems(t.locationInfo), c35Cnt, c35Typ, c35Val, c35CurTyp, c35CurVal
+
+// ---------------------------------------------------------------------------------------------------------------------
+// InsertData (state at Lock() -> state at Unlock()): exactly one entry is appended to the named table's batch; when the batch
+// limit is reached the whole batch, ending with this entry, goes to the table's prepared statement and the batch is emptied.
+// Arithmetic assumption stated in the clauses: entryCount has not reached MaxInt64 / is not negative (it counts batched entries).
+//@ fn (*sqliteWriter).InsertData
+//@   property C35
+//@   requires c35Shape(t)
+//@   panics any
 //@   label C35.insert.exists
 //@   ensures old(tableName in t.tables)
 //@   label C35.insert.batched
@@ -195,98 +322,11 @@ package datarecording
 //@   ensures atlock(t.entryCount) < MaxInt64 && atlock(t.entryCount) + 1 < t.batchSize ==>
 //@     (forall k int :: k in t.tables && k != tableName ==> len(t.tables[k].entries) == atlock(len(t.tables[k].entries)) && ref(t.tables[k].entries) == atlock(ref(t.tables[k].entries)))
 //@   label C35.insert.flushed
-//@   ensures atomic && tableName != "location" && 0 <= atlock(t.entryCount) && atlock(t.entryCount) < MaxInt64 && atlock(t.entryCount) + 1 >= t.batchSize ==>
+//@   ensures tableName != "location" && 0 <= atlock(t.entryCount) && atlock(t.entryCount) < MaxInt64 && atlock(t.entryCount) + 1 >= t.batchSize ==>
 //@        len(t.tables[tableName].entries) == 0
 //@     && c35Cnt[t.tables[tableName].statement] == old(c35Cnt)[t.tables[tableName].statement] + atlock(len(t.tables[tableName].entries)) + 1
 //@     && c35Typ[t.tables[tableName].statement][c35Cnt[t.tables[tableName].statement] - 1] == typeid(entry)
 //@     && c35Val[t.tables[tableName].statement][c35Cnt[t.tables[tableName].statement] - 1] == ifaceval(entry)
 //@   label C35.insert.inv
 //@   ensures c35Disj(t) && c35LocBij(t)
-//@   assigns key("O|datarecording.table|.entries"), key("E|any|"), t.entryCount, elems(t.locationInfo), c35Cnt, c35Typ, c35Val, c35CurTyp, c35CurVal, c35Q
-
-// ---------------------------------------------------------------------------------------------------------------------
-// Flushing. No lock is taken here: flushLocationTable is read sequentially.
-//@ func c35LocStmt(t) = t.tables["location"].statement
-//@ fn (*sqliteWriter).flushLocationTable
-//@   property C35
-//@   requires c35Shape(t) && c35Disj(t)
-//@   panics any
-//@   label C35.flushloc.count
-//@   ensures c35Cnt == upd(old(c35Cnt), c35LocStmt(t), old(c35Cnt)[c35LocStmt(t)] + old(len(t.tables["location"].entries)))
-//@   label C35.flushloc.rows
-//@   ensures forall j in 0..old(len(t.tables["location"].entries)) :: c35Typ[c35LocStmt(t)][old(c35Cnt)[c35LocStmt(t)] + j] == typeid(old(t.tables["location"].entries[j])) && c35Val[c35LocStmt(t)][old(c35Cnt)[c35LocStmt(t)] + j] == ifaceval(old(t.tables["location"].entries[j]))
-//@   label C35.flushloc.oldrows
-//@   ensures forall s int, n int :: (s != c35LocStmt(t) || n < old(c35Cnt)[s]) ==> c35Typ[s][n] == old(c35Typ)[s][n] && c35Val[s][n] == old(c35Val)[s][n]
-//@   label C35.flushloc.empty
-//@   ensures len(t.tables["location"].entries) == 0 && c35Disj(t)
-//@   assigns t.tables["location"].entries, c35Cnt, c35Typ, c35Val, c35CurTyp, c35CurVal
-//@   loop 0: invariant -1 <= rangeindex && rangeindex < old(len(t.tables["location"].entries)) && table == t.tables["location"]
-//@   loop 0: invariant len(table.entries) == old(len(table.entries)) && ref(table.entries) == old(ref(table.entries)) && off(table.entries) == old(off(table.entries))
-//@   loop 0: invariant c35Cnt == upd(old(c35Cnt), c35LocStmt(t), old(c35Cnt)[c35LocStmt(t)] + rangeindex + 1)
-//@   loop 0: invariant forall j in 0..rangeindex + 1 :: c35Typ[c35LocStmt(t)][old(c35Cnt)[c35LocStmt(t)] + j] == typeid(old(t.tables["location"].entries[j])) && c35Val[c35LocStmt(t)][old(c35Cnt)[c35LocStmt(t)] + j] == ifaceval(old(t.tables["location"].entries[j]))
-//@   loop 0: invariant forall s int, n int :: (s != c35LocStmt(t) || n < old(c35Cnt)[s]) ==> c35Typ[s][n] == old(c35Typ)[s][n] && c35Val[s][n] == old(c35Val)[s][n]
-//@   loop 1: invariant 0 <= i && (fresh(v) || cap(v) == 0)
-
-//@ fn (*sqliteWriter).mustExecute
-//@   property C35
-//@   requires t != nil && t.DB != nil
-//@   panics any
-//@   assigns nothing
-
-// Flush (sequential statement): every batched entry of every table goes to that table's prepared statement exactly once, in
-// batch order, and every batch is emptied. The statement needs the batches to stay put between Flush's unlocked reads and its
-// unlocked clear; the only thing Flush can rely on across insertEntryForTable's lock acquisitions is the lock's stability
-// relation (batches may GROW). Obligation C35.flush.atomic is that missing guarantee.
-//@ pred c35HdrOld(t, k) = len(t.tables[k].entries) == old(len(t.tables[k].entries)) && ref(t.tables[k].entries) == old(ref(t.tables[k].entries)) && off(t.tables[k].entries) == old(off(t.tables[k].entries))
-//@ func c35St(t, k) = t.tables[k].statement
-//@ fn (*sqliteWriter).Flush
-//@   property C35
-//@   requires c35Shape(t) && c35Disj(t) && c35LocBij(t)
-//@   panics any
-//@   witness atomic bool = c35Q
-//@   label C35.flush.idle
-//@   ensures old(t.entryCount) == 0 ==> c35Cnt == old(c35Cnt) && c35Typ == old(c35Typ) && c35Val == old(c35Val) && (forall k int :: k in t.tables ==> c35HdrOld(t, k))
-//@   label C35.flush.count
-//@   ensures old(t.entryCount) != 0 && atomic ==> (forall k int :: k in t.tables && k != "location" ==> c35Cnt[c35St(t, k)] == old(c35Cnt)[c35St(t, k)] + old(len(t.tables[k].entries)))
-//@   label C35.flush.order
-//@   ensures old(t.entryCount) != 0 && atomic ==> (forall k int :: k in t.tables && k != "location" ==> (forall j in 0..old(len(t.tables[k].entries)) :: c35Typ[c35St(t, k)][old(c35Cnt)[c35St(t, k)] + j] == typeid(old(t.tables[k].entries[j])) && c35Val[c35St(t, k)][old(c35Cnt)[c35St(t, k)] + j] == ifaceval(old(t.tables[k].entries[j]))))
-//@   label C35.flush.empty
-//@   ensures old(t.entryCount) != 0 && atomic ==> (forall k int :: k in t.tables ==> len(t.tables[k].entries) == 0)
-//@   label C35.flush.location
-//@   ensures old(t.entryCount) != 0 && atomic ==> c35Cnt[c35LocStmt(t)] >= old(c35Cnt)[c35LocStmt(t)] + old(len(t.tables["location"].entries))
-//@   label C35.flush.oldrows
-//@   ensures forall s int, n int :: n < old(c35Cnt)[s] ==> c35Typ[s][n] == old(c35Typ)[s][n] && c35Val[s][n] == old(c35Val)[s][n]
-//@   label C35.flush.reset
-//@   ensures old(t.entryCount) != 0 && atomic ==> t.entryCount == 0
-//@   label C35.flush.inv
-//@   ensures c35Disj(t) && c35LocBij(t)
-//@   assigns key("O|datarecording.table|.entries"), key("E|any|"), t.entryCount, elems(t.locationInfo), c35Cnt, c35Typ, c35Val, c35CurTyp, c35CurVal, c35Q
-//  ---- loop 0: the tables, in map order. c35Q = "no call of insertEntryForTable so far found the guarded data changed by somebody else"
-//@   loop 0: ghost c35Q = true
-//@   loop 0: backedge c35Q = c35Q
-//@   loop 0: invariant old(t.entryCount) != 0 && c35Disj(t) && c35LocBij(t)
-//@   loop 0: invariant forall s int :: c35Cnt[s] >= old(c35Cnt)[s]
-//@   loop 0: invariant c35Q ==> (forall k int :: k in t.tables && k != "location" ==> c35Cnt[c35St(t, k)] == old(c35Cnt)[c35St(t, k)] + (visited(k) ? old(len(t.tables[k].entries)) : 0))
-//@   loop 0: invariant c35Q ==> (forall k int :: k in t.tables && k != "location" ==> (visited(k) ? len(t.tables[k].entries) == 0 : c35HdrOld(t, k)))
-//@   loop 0: invariant c35Q ==> (forall k int :: k in t.tables && k != "location" && !visited(k) ==> (forall j in 0..old(len(t.tables[k].entries)) :: t.tables[k].entries[j] == old(t.tables[k].entries[j])))
-//@   loop 0: invariant c35Q ==> (forall k int :: k in t.tables && k != "location" && visited(k) ==> (forall j in 0..old(len(t.tables[k].entries)) :: c35Typ[c35St(t, k)][old(c35Cnt)[c35St(t, k)] + j] == typeid(old(t.tables[k].entries[j])) && c35Val[c35St(t, k)][old(c35Cnt)[c35St(t, k)] + j] == ifaceval(old(t.tables[k].entries[j]))))
-//@   loop 0: invariant forall s int, n int :: n < old(c35Cnt)[s] ==> c35Typ[s][n] == old(c35Typ)[s][n] && c35Val[s][n] == old(c35Val)[s][n]
-//@   loop 0: invariant len(t.tables["location"].entries) >= old(len(t.tables["location"].entries)) && c35Cnt[c35LocStmt(t)] == old(c35Cnt)[c35LocStmt(t)]
-//  ---- loop 1: the batch of the current table (same ghost c35Q: it carries over from and back to loop 0)
-//@   loop 1: ghost c35Q = c35Q
-//@   loop 1: backedge c35Q = c35Q && insertEntryForTable_quiet
-//@   loop 1: invariant old(t.entryCount) != 0 && c35Disj(t) && c35LocBij(t)
-//@   loop 1: invariant tableName in t.tables && tableName != "location" && table == t.tables[tableName] && visited(tableName)
-//@   loop 1: invariant -1 <= rangeindex
-//@   loop 1: invariant c35Q ==> rangeindex < old(len(t.tables[tableName].entries))
-//@   loop 1: invariant c35Q ==> c35Cnt[table.statement] == old(c35Cnt)[table.statement] + rangeindex + 1
-//@   loop 1: invariant c35Q ==> c35HdrOld(t, tableName)
-//@   loop 1: invariant c35Q ==> (forall j in 0..old(len(t.tables[tableName].entries)) :: t.tables[tableName].entries[j] == old(t.tables[tableName].entries[j]))
-//@   loop 1: invariant c35Q ==> (forall j in 0..rangeindex + 1 :: c35Typ[table.statement][old(c35Cnt)[table.statement] + j] == typeid(old(t.tables[tableName].entries[j])) && c35Val[table.statement][old(c35Cnt)[table.statement] + j] == ifaceval(old(t.tables[tableName].entries[j])))
-//@   loop 1: invariant forall s int :: c35Cnt[s] >= old(c35Cnt)[s]
-//@   loop 1: invariant c35Q ==> (forall k int :: k in t.tables && k != "location" && k != tableName ==> c35Cnt[c35St(t, k)] == old(c35Cnt)[c35St(t, k)] + (visited(k) ? old(len(t.tables[k].entries)) : 0))
-//@   loop 1: invariant c35Q ==> (forall k int :: k in t.tables && k != "location" && k != tableName ==> (visited(k) ? len(t.tables[k].entries) == 0 : c35HdrOld(t, k)))
-//@   loop 1: invariant c35Q ==> (forall k int :: k in t.tables && k != "location" && !visited(k) ==> (forall j in 0..old(len(t.tables[k].entries)) :: t.tables[k].entries[j] == old(t.tables[k].entries[j])))
-//@   loop 1: invariant c35Q ==> (forall k int :: k in t.tables && k != "location" && k != tableName && visited(k) ==> (forall j in 0..old(len(t.tables[k].entries)) :: c35Typ[c35St(t, k)][old(c35Cnt)[c35St(t, k)] + j] == typeid(old(t.tables[k].entries[j])) && c35Val[c35St(t, k)][old(c35Cnt)[c35St(t, k)] + j] == ifaceval(old(t.tables[k].entries[j]))))
-//@   loop 1: invariant forall s int, n int :: n < old(c35Cnt)[s] ==> c35Typ[s][n] == old(c35Typ)[s][n] && c35Val[s][n] == old(c35Val)[s][n]
-//@   loop 1: invariant len(t.tables["location"].entries) >= old(len(t.tables["location"].entries)) && c35Cnt[c35LocStmt(t)] == old(c35Cnt)[c35LocStmt(t)]
+//@   assigns key("O|datarecording.table|.entries"), key("E|any|"), t.entryCount, elems(t.locationInfo), c35Cnt, c35Typ, c35Val, c35CurTyp, c35CurVal
